@@ -669,7 +669,9 @@ func Expr(query *Query, current Map, expr sqlparser.Expr, opts ...ExprOption) (a
 				columnName = fmt.Sprintf("%s.%s", qualifier, name)
 			}
 			if options.hardCodedRead {
-				columnName = fmt.Sprintf("'%s'", columnName)
+				// the row ON is evaluated on is keyed by the join columns with the
+				// quotes of quoted keys (x.`'k-1'`) taken out, see ToCatalog
+				columnName = fmt.Sprintf("'%s'", strings.ReplaceAll(columnName, "'", ""))
 			}
 			return ColumnName(columnName), nil
 		}
